@@ -356,18 +356,23 @@ class Spec:
         return s
 
     def apply(self, t, op, p, args):
+        """returns the set of endpoints invalidated (they were valid) by this operation"""
+        killed = set()
         s = self.ensure(p, t)
         if s is None:
-            return
+            return killed
         if op == 1:
             if s == 0:
                 self.touch_up(p, t)
         elif op == 2:
             if self.lmt[p] != MIN_DT:
                 for q in self.lmt:
-                    if q[:len(p)] == p and self.fixed_below(p, q):
+                    if q[:len(p)] == p:
+                        if self.lmt[q] != MIN_DT:
+                            killed.add(q)
                         self.lmt[q] = MIN_DT
-                self.touch_up(p[:-1], t) if p else None
+                if p:
+                    self.touch_up(p[:-1], t)   # an invalidated child is a change of every enclosing collection
         elif op == 3:
             leaves = []
             present_leaves(s, args, 0, list(p), leaves)
@@ -378,18 +383,11 @@ class Spec:
                 self.add_subtree(p + (args[0],), s[1])
                 self.touch_up(p, t)
         elif op == 5:
-            if kind(s) == 3 and p + (args[0],) in self.lmt:
-                self.drop_subtree(p + (args[0],))
-                self.touch_up(p, t)
-
-    def fixed_below(self, p, q):
-        """q is reached from p through fixed (TSB/TSL) levels only: invalidate does not descend into a TSD's slots"""
-        s = shape_at(self.shape, p)
-        for i in q[len(p):]:
             if kind(s) == 3:
-                return False
-            s = kids(s)[i]
-        return True
+                if p + (args[0],) in self.lmt:
+                    self.drop_subtree(p + (args[0],))
+                self.touch_up(p, t)            # an erase request marks the dictionary even when the key is absent
+        return killed
 
 
 def oracle(prop, case, out):
@@ -424,10 +422,9 @@ def oracle(prop, case, out):
             return fails     # the state is partially written from here on: stop judging
         killed_now, child_inv_now = set(), set()
         for (op, p, args) in by_t.get(t, []):
-            before = dict(spec.lmt)
-            spec.apply(t, op, p, args)
-            if op == 2 and before.get(p, MIN_DT) != MIN_DT:
-                killed_now.add(p)
+            k = spec.apply(t, op, p, args)
+            killed_now |= k
+            if k:
                 for n in range(len(p)):
                     child_inv_now.add(p[:n])
         prod = {}
@@ -483,36 +480,44 @@ def oracle(prop, case, out):
                 ck, cbind, cpath = cons[who - 1]
                 names = ["valid", "modified", "lmt", "value", "delta_readable", "delta"]
                 diff = [names[i] for i in range(6) if vals[i] != prod[p][i]]
-                # classification: the consumer's root position after an invalidation of its target
-                inv_related = p == cpath and prod[p][0] == 0
-                kind_ = ("consumer_after_invalidate_" + diff[0]) if inv_related else ("consumer_disagrees_" + diff[0])
-                fails.append((kind_, "t=%d consumer %d ep=%s reads %s, producer %s" % (t, who, list(p), vals, prod[p])))
+                rest = diff
+                if p == cpath and prod[p][0] == 0 and vals[0] == 0 and rest and rest[0] in ("modified", "lmt"):
+                    # the consumer's own position after its target was invalidated: the link keeps the invalidation time
+                    fails.append(("consumer_after_invalidate_" + rest[0],
+                                  "t=%d consumer %d ep=%s reads %s, producer %s" % (t, who, list(p), vals, prod[p])))
+                    rest = [d for d in rest if d not in ("modified", "lmt")]
+                if rest and rest[0] == "delta_readable" and vals[4] == 1 and prod[p][4] == 0:
+                    fails.append(("consumer_stale_delta",
+                                  "t=%d consumer %d ep=%s reads a delta (%d) in a cycle that did not write it; reads %s, producer %s"
+                                  % (t, who, list(p), vals[5], vals, prod[p])))
+                    rest = []
+                if rest:
+                    fails.append(("consumer_disagrees_" + rest[0],
+                                  "t=%d consumer %d ep=%s reads %s, producer %s" % (t, who, list(p), vals, prod[p])))
         # active consumers run exactly when their endpoint was written or invalidated in this cycle
         ran = {l[1] for l in ls if l[0] == 21}
         for k, (ck, cbind, cpath) in enumerate(cons):
             who = k + 1
             if ck in (1, 2):
-                touched = spec.lmt.get(cpath, MIN_DT) == t or cpath in killed_now or \
-                    any(q[:len(cpath)] == cpath for q in killed_now) and False
-                inv_here = any(cpath[:len(q)] == q for q in killed_now)
-                exp = touched or inv_here
+                exp = spec.lmt.get(cpath, MIN_DT) == t or cpath in killed_now
                 if exp and who not in ran:
-                    fails.append(("not_notified", "t=%d active consumer %d on %s not evaluated although written" % (t, who, list(cpath))))
+                    fails.append(("not_notified", "t=%d active consumer %d on %s not evaluated although written/invalidated" % (t, who, list(cpath))))
                 if who in ran and not exp:
                     fails.append(("spurious_notify", "t=%d active consumer %d on %s evaluated without a write" % (t, who, list(cpath))))
     return fails
 
 
+# Deviations of the unchanged tree from the letter of C04 (see docs/notes-track.md, findings F1-F3).  The mirror
+# model reproduces them, so the differential stays quiet; the oracle names them with these kinds.  They are NOT
+# listed in PROP_KINDS until the lead records them in known_findings.json (then move them there).
 DEVIATION_KINDS = {"consumer_after_invalidate_modified", "consumer_after_invalidate_lmt",
-                   "consumer_after_invalidate_delta_readable", "consumer_after_invalidate_delta",
-                   "whole_write_throws"}
+                   "consumer_stale_delta", "whole_write_throws"}
 
 PROP_KINDS = {
     "C04": {"modified_wrong", "lmt_wrong", "valid_wrong", "delta_leak", "delta_missing", "delta_children", "delta_value",
             "parent_without_child", "child_without_parent", "endpoint_missing", "endpoint_extra",
             "consumer_disagrees_valid", "consumer_disagrees_modified", "consumer_disagrees_lmt", "consumer_disagrees_value",
-            "consumer_disagrees_delta_readable", "consumer_disagrees_delta", "consumer_after_invalidate_valid",
-            "consumer_after_invalidate_value",
+            "consumer_disagrees_delta_readable", "consumer_disagrees_delta",
             "not_notified", "spurious_notify", "cycle_missing", "write_throws", "harness_error"},
 }
 
